@@ -145,6 +145,16 @@ func NamespaceIdentifierName(namespace string) string {
 	return formatting.ToSnakeCase(namespace)
 }
 
+// Returns an error if the MATLAB package derived from the yardl namespace would
+// be a reserved word or clash with a package of the generated code
+func ValidateNamespaceName(namespace string) error {
+	identifier := NamespaceIdentifierName(namespace)
+	if isReservedName[identifier] || identifier == "yardl" {
+		return fmt.Errorf("the namespace '%s' cannot be used for MATLAB code generation because '%s' is reserved", namespace, identifier)
+	}
+	return nil
+}
+
 func FieldIdentifierName(name string) string {
 	snakeCased := formatting.ToSnakeCase(name)
 	if !isReservedName[snakeCased] {
